@@ -160,12 +160,112 @@ class TempReturn(ast.NodeTransformer):
         return node
 
 
+class AddLogging(ast.NodeTransformer):
+    """T6: a debug log call before every return / after every simple assignment of a method."""
+    def __init__(self):
+        self.in_method = []
+
+    def visit_FunctionDef(self, node):
+        is_method = bool(node.args.args) and node.args.args[0].arg == 'self'
+        self.in_method.append(is_method)
+        self.generic_visit(node)
+        self.in_method.pop()
+        return node
+
+    visit_AsyncFunctionDef = visit_FunctionDef
+
+    def _log(self):
+        if self.in_method and self.in_method[-1]:
+            return ast.parse("self.log_debug('trace')").body[0]
+        return ast.parse("_logger.debug('trace')").body[0]
+
+    def generic_visit(self, node):
+        super().generic_visit(node)
+        if not self.in_method:
+            return node
+        for f in ('body', 'orelse', 'finalbody'):
+            v = getattr(node, f, None)
+            if isinstance(v, list) and v and isinstance(v[0], ast.stmt) and not isinstance(node, ast.ClassDef):
+                out = []
+                for st in v:
+                    if isinstance(st, ast.Return):
+                        out.append(self._log())
+                    out.append(st)
+                    if isinstance(st, ast.Assign):
+                        out.append(self._log())
+                setattr(node, f, out)
+        return node
+
+
+class Annotate(ast.NodeTransformer):
+    """T8: `x = E` -> `x: object = E` for simple local names inside functions."""
+    def __init__(self):
+        self.depth = 0
+
+    def visit_FunctionDef(self, node):
+        self.depth += 1
+        self.generic_visit(node)
+        self.depth -= 1
+        return node
+
+    visit_AsyncFunctionDef = visit_FunctionDef
+
+    def visit_ClassDef(self, node):
+        d, self.depth = self.depth, 0
+        self.generic_visit(node)
+        self.depth = d
+        return node
+
+    def visit_Module(self, node):
+        self.skip = {n for x in ast.walk(node) if isinstance(x, (ast.Global, ast.Nonlocal)) for n in x.names}
+        self.generic_visit(node)
+        return node
+
+    def visit_Assign(self, node):
+        if self.depth and len(node.targets) == 1 and isinstance(node.targets[0], ast.Name) \
+                and node.targets[0].id not in getattr(self, 'skip', ()):
+            return ast.copy_location(ast.AnnAssign(target=node.targets[0], annotation=ast.Name(id='object', ctx=ast.Load()),
+                                                   value=node.value, simple=1), node)
+        return node
+
+
+class ElseAfterReturn(ast.NodeTransformer):
+    """T12: `if c: ...return` followed by the rest  ->  `if c: ...return  else: <rest>`."""
+    def generic_visit(self, node):
+        super().generic_visit(node)
+        for f in ('body', 'orelse', 'finalbody'):
+            v = getattr(node, f, None)
+            if isinstance(v, list) and v and isinstance(v[0], ast.stmt):
+                for i, st in enumerate(v):
+                    if isinstance(st, ast.If) and not st.orelse and st.body and \
+                            isinstance(st.body[-1], (ast.Return, ast.Raise)) and i + 1 < len(v):
+                        st.orelse = v[i + 1:]
+                        setattr(node, f, v[:i + 1])
+                        break
+        return node
+
+
+class AugToAssign(ast.NodeTransformer):
+    """T13: `x op= e` -> `x = x op e` for simple names and self attributes."""
+    def visit_AugAssign(self, node):
+        t = node.target
+        if isinstance(t, ast.Name) or (isinstance(t, ast.Attribute) and isinstance(t.value, ast.Name)):
+            load = ast.Name(id=t.id, ctx=ast.Load()) if isinstance(t, ast.Name) else \
+                ast.Attribute(value=t.value, attr=t.attr, ctx=ast.Load())
+            return ast.copy_location(ast.Assign(targets=[t], value=ast.BinOp(left=load, op=node.op, right=node.value)), node)
+        return node
+
+
 TRANS = {
     'T1': lambda t: t,
     'T2': lambda t: RenameLocals(t).visit(t),
     'T3': lambda t: FlipIf().visit(t),
     'T4': lambda t: CmpMirror().visit(t),
     'T5': lambda t: TempReturn().visit(t),
+    'T6': lambda t: AddLogging().visit(t),
+    'T8': lambda t: Annotate().visit(t),
+    'T12': lambda t: ElseAfterReturn().visit(t),
+    'T13': lambda t: AugToAssign().visit(t),
 }
 
 
